@@ -4,6 +4,13 @@ use std::time::Instant;
 
 use crossbeam_utils::CachePadded;
 
+/// The type of the `current_cost` gauge: several actors update it without a common lock, so
+/// the simulation build makes every access to it a scheduling point.
+#[cfg(not(excsn_fibre_verif))]
+pub(crate) type Gauge = AtomicU64;
+#[cfg(excsn_fibre_verif)]
+pub(crate) type Gauge = fibre_verif_rt::chan::AtomicU64;
+
 /// A thread-safe, internal metrics collector for the cache.
 /// All fields are atomic to allow for lock-free updates.
 #[derive(Debug)]
@@ -30,7 +37,7 @@ pub struct Metrics {
   pub(crate) keys_rejected: CachePadded<AtomicU64>,
 
   // --- Cost / Size ---
-  pub(crate) current_cost: CachePadded<AtomicU64>,
+  pub(crate) current_cost: CachePadded<Gauge>,
   pub(crate) total_cost_added: CachePadded<AtomicU64>,
 
   // --- Timestamps for Uptime ---
@@ -61,7 +68,7 @@ impl Metrics {
       evicted_by_tti: CachePadded::new(AtomicU64::new(0)),
       keys_admitted: CachePadded::new(AtomicU64::new(0)),
       keys_rejected: CachePadded::new(AtomicU64::new(0)),
-      current_cost: CachePadded::new(AtomicU64::new(0)),
+      current_cost: CachePadded::new(Gauge::new(0)),
       total_cost_added: CachePadded::new(AtomicU64::new(0)),
       created_at: Instant::now(), // Set the creation time here.
     }
